@@ -377,8 +377,14 @@ def _render_fn_lines(p, fid, ctx, prelude):
     lines = []
     if f["data_path"] is not None:
         lines.append("@dds.data_function(%s)" % _path_expr(ctx, f["data_path"], f.get("path_style", "lit"), prelude, f.get("path_name")))
-    ps = ", ".join([n if d is None else "%s=%s" % (n, d) for n, d in f["params"]] + ["dv%d=%s" % (j, ctx.var_expr(vid, "bare")) for j, vid in enumerate(f.get("default_vars", []))])
-    lines.append("def %s(%s):" % (f["name"], ps))
+    if p.get("annotate"):
+        # type annotations spelled with names imported from typing (they say nothing about what the function computes)
+        ctx.add("from typing import Any, Optional, Tuple")
+        ps = ", ".join(["%s: Optional[Any]" % n if d is None else "%s: Optional[Any] = %s" % (n, d) for n, d in f["params"]] + ["dv%d: Any = %s" % (j, ctx.var_expr(vid, "bare")) for j, vid in enumerate(f.get("default_vars", []))])
+        lines.append("def %s(%s) -> Tuple:" % (f["name"], ps))
+    else:
+        ps = ", ".join([n if d is None else "%s=%s" % (n, d) for n, d in f["params"]] + ["dv%d=%s" % (j, ctx.var_expr(vid, "bare")) for j, vid in enumerate(f.get("default_vars", []))])
+        lines.append("def %s(%s):" % (f["name"], ps))
     lines.append("    # %s" % f["comment"])
     lines.append("    vlog.hit(%r)" % f["name"])
     lines.append("    r = [%r, %d%s]" % (f["name"], f["const"], "".join(", " + n for n, _ in f["params"])))
@@ -394,6 +400,10 @@ def _render_fn_lines(p, fid, ctx, prelude):
         # a call into non-accepted code (its result is dropped: whatever that code does, this function's value stays)
         ctx.add("from %s import ext_helper" % p["ext"]["pkg"])
         lines.append("    ext_helper()")
+    if f.get("ext_alias") and p.get("ext"):
+        # a function of the non-accepted package used under a local alias name (the alias stays, what it names may change)
+        ctx.add("from %s import %s as ext_pick" % (p["ext"]["pkg"], f["ext_alias"]))
+        lines.append("    r.append(ext_pick())")
     if f.get("uses_display_methods"):
         # method calls on displays, comprehensions, formatted strings and an immediately called lambda
         lines.append("    r.append(({\"a\": 1}.get(\"a\"), [3, 1].index(1), f\"v{1}\".upper(), (1, 2).count(1), [q for q in (1, 2)].count(2), {1, 2}.union({3}) == {1, 2, 3}, (lambda q: q + 1)(2)))")
@@ -599,7 +609,7 @@ def render(p):
         files[p["lazy"]["name"] + ".py"] = lazy_text(p)
     if p.get("ext"):
         e = p["ext"]
-        files[e["pkg"].replace(".", "/") + "/__init__.py"] = "# not accepted\nEXT_VAR = %s\n\n\ndef ext_helper():\n    # %s\n    return (\"ext\", %d)\n\n\nclass ExtBase(object):\n    # %s\n    def base_info(self):\n        return (\"extbase\", %d)\n" % (e["var"], e["comment"], e["const"], e["comment"], e["const"])
+        files[e["pkg"].replace(".", "/") + "/__init__.py"] = "# not accepted\nEXT_VAR = %s\n\n\ndef ext_helper():\n    # %s\n    return (\"ext\", %d)\n\n\ndef ext_helper_two():\n    return (\"ext-two\", 2)\n\n\nclass ExtBase(object):\n    # %s\n    def base_info(self):\n        return (\"extbase\", %d)\n" % (e["var"], e["comment"], e["const"], e["comment"], e["const"])
     return files
 
 
@@ -678,6 +688,8 @@ def _own_items(p, fid, memo, stack=(), externals=None):
     for g in reach(p, fid):
         f = p["fns"][g]
         items.append(("T", f["name"], fn_text_nomod(p, g)))
+        if f.get("ext_alias"):
+            items.append(("XA", f["name"], f["ext_alias"]))
         for vid in [x[0] for x in f["reads"]] + list(f.get("default_vars", [])):
             v = p["vars"][vid]
             items.append(("V", v["module"], v["name"], v["value"]))
